@@ -22,7 +22,8 @@ EXPLANATION = (
     "functions allowed to write it - and memoised functions read no configuration; R09.6 lists every configuration read site "
     "(informational); R09.7 decides one clause of the configuration sentence: a node never reads the same configuration key live both "
     "when it advertises its layout (chunks) and when it lowers - the two decisions are taken under one per-node captured setting "
-    "(`with config.set(self.<cached property>)`), otherwise the advertised and the actual block structure diverge when an option "
+    "(passed to the planning helper as parameters filled from a cached property of the node, `f(..., **self.<cached property>)`, the helper "
+    "consulting dask.config only when the parameter is absent; or `with config.set(self.<cached property>)`), otherwise the advertised and the actual block structure diverge when an option "
     "changes between construction and graph building (this was genuine on the pinned tree: a tree reduction over such a node returned a partial sum; repaired). "
     "The second sentence of C09 (same VALUES under every array.* setting) is an information-flow claim over integer planning "
     "code and is not decided; all configuration read sites are listed in the evidence."
@@ -543,6 +544,42 @@ def _with_pins(repo, f: FuncInfo):
     return out
 
 
+def _param_guarded(g: FuncInfo, node):
+    """Name of the parameter P such that ``node`` is evaluated only when ``P is <sentinel/None>`` (the idiom
+    ``if P is _FROM_CONFIG: P = config.get(...)`` / ``config.get(...) if P is None else P``), else None."""
+    parents = g.__dict__.get("_c09_parents")
+    if parents is None:
+        parents = {}
+        for p in ast.walk(g.node):
+            for ch in ast.iter_child_nodes(p):
+                parents[id(ch)] = p
+        g.__dict__["_c09_parents"] = parents
+    cur = node
+    while id(cur) in parents:
+        par = parents[id(cur)]
+        test, in_body = None, False
+        if isinstance(par, ast.If):
+            test, in_body = par.test, any(cur is x for x in par.body)
+        elif isinstance(par, ast.IfExp):
+            test, in_body = par.test, cur is par.body
+        if test is not None and in_body and isinstance(test, ast.Compare) and len(test.ops) == 1 and isinstance(test.ops[0], ast.Is) and isinstance(test.left, ast.Name) and test.left.id in g.params:
+            return test.left.id
+        cur = par
+    return None
+
+
+def _call_pins(repo, g: FuncInfo, call: ast.Call):
+    """Parameter names of the callee that this call fills from a per-node capture: ``**self.<cached property>`` (the
+    literal keys of the mapping it returns) or ``kw=self.<cached property>[...]``."""
+    out = set()
+    for k in call.keywords:
+        if k.arg is None and _pin_is_per_node(repo, k.value, g):
+            out |= _dict_keys_of(repo, k.value, g)
+        elif k.arg is not None and isinstance(k.value, ast.Subscript) and _pin_is_per_node(repo, k.value.value, g):
+            out.add(k.arg)
+    return out
+
+
 def live_config_reads(ctx, root: FuncInfo, skip_cached_props=True, max_depth=6):
     """{key: (function, node, path)} configuration keys read on resolved call paths from ``root`` that are
     NOT under a per-node ``with config.set(self.<cached property>)`` pin; cached properties of the node
@@ -552,19 +589,21 @@ def live_config_reads(ctx, root: FuncInfo, skip_cached_props=True, max_depth=6):
     live = {}
     pinned_seen = {}
     seen = set()
-    work = [(root, frozenset(), (root.fq,))]
+    work = [(root, frozenset(), (root.fq,), frozenset())]
     while work:
-        g, pins, path = work.pop()
-        if (g.fq, pins) in seen or len(path) > max_depth:
+        g, pins, path, pparams = work.pop()
+        if (g.fq, pins, pparams) in seen or len(path) > max_depth:
             continue
-        seen.add((g.fq, pins))
+        seen.add((g.fq, pins, pparams))
         wp = _with_pins(repo, g)
         for node, key in _config_reads(g):
             here = set(pins)
             for ids, keys in wp:
                 if id(node) in ids:
                     here |= keys
-            if key in here:
+            gp = _param_guarded(g, node)
+            if key in here or (gp is not None and gp in pparams):
+                # under a per-node pin, or only evaluated when a parameter the caller fills from a per-node capture is absent
                 pinned_seen.setdefault(key, (g, node, path))
             else:
                 live.setdefault(key, (g, node, path))
@@ -580,7 +619,8 @@ def live_config_reads(ctx, root: FuncInfo, skip_cached_props=True, max_depth=6):
             for ids, keys in wp:
                 if id(e.node) in ids:
                     here |= keys
-            work.append((t, frozenset(here), path + (t.fq,)))
+            cp = _call_pins(repo, g, e.node) if isinstance(e.node, ast.Call) else set()
+            work.append((t, frozenset(here), path + (t.fq,), frozenset(cp)))
     return live, pinned_seen
 
 
